@@ -204,8 +204,8 @@ Proof.
 Qed.
 
 Lemma aft_cond pc e r t ts1 f ts2 :
-  Parses LExpr false None (skip_nl r) (t, TColon :: ts1) ->
-  Parses LExpr false None (skip_nl ts1) (f, ts2) ->
+  Parses LExpr pc None (skip_nl r) (t, TColon :: ts1) ->
+  Parses LExpr pc None (skip_nl ts1) (f, ts2) ->
   Afters LCond pc e (TQuestion :: r) (ECond e t f, ts2).
 Proof.
   intros [n1 H1] [n2 H2]. fuel2 n1 n2.
